@@ -119,14 +119,27 @@ def _short_model(m, limit=6000):
 
 
 def _cover_one(i):
-    name, assumptions = _OBLS[i]
-    s = z3.Solver()
-    s.set('timeout', 3000)
-    for a in _BG:
-        s.add(a)
-    for a in assumptions:
-        s.add(a)
-    r = s.check()
+    cv = _OBLS[i]
+    name, assumptions = cv[0], cv[1]
+    pre = cv[2] if len(cv) > 2 else None
+
+    def chk(assumps):
+        s = z3.Solver()
+        s.set('timeout', 3000)
+        for a in _BG:
+            s.add(a)
+        for a in assumps:
+            if isinstance(a, list):
+                for a_ in a:
+                    s.add(a_)
+            else:
+                s.add(a)
+        return s.check()
+    r = chk(assumptions)
+    if r == z3.unsat and pre is not None:
+        # a state after a call: vacuous only if the state before the call was reachable
+        if chk(pre) == z3.unsat:
+            return {'name': name, 'result': 'dead-path'}
     return {'name': name, 'result': str(r)}
 
 
